@@ -1,4 +1,5 @@
 import GramModel.Lemmas.Listing
+import GramModel.Lemmas.ParserSpan
 
 /-!
 # C15 — diagnostics point at the offending source text (the excerpt renderer)
@@ -235,3 +236,143 @@ example : listing C15_ws ['é','a'] 1 3 = .panic := by decide
 
 -- so does a range that covers only part of the indentation of a line it starts at column 0 of
 example : listing C15_ws ['\t','\t','a'] 0 1 = .panic := by decide
+
+/-! ## The parser side: every syntax node carries the byte range of its own tokens
+
+Statements about the 36 packrat functions of `PModel` (`Parser.lean`, the model of `src/parser.rs`),
+proved in `Lemmas/ParserSpan.lean`.  They concern the tree as the `parse_*` functions return it,
+*before* the three re-association passes (which rebuild chain nodes; deviation recorded as
+`KF-range-paren-chain`).
+
+Vocabulary.  `PModel.rng toks a b = span(token_source_range(a), token_source_range(b - 1))`, for
+`a < b ≤ toks.size` the range from the start of token `a` to the end of token `b - 1`
+(`C15_rng_tokens`).  `PModel.SegT toks nt a b t`: `t` is the parse tree of the tokens `a … b-1` derived
+from `nt` — one constructor per production of `grammar.y`, each stating that the node built is
+`⟨rng toks a b, group := false, …, errors := []⟩` over the children's `SegT`, binder variables carrying
+`token_source_range` of their identifier token (the anonymous binder of `a -> b`: the empty range at the
+start of `a`), and for `( t )` the inner node itself with `group := true` and the range extended to the
+parentheses.  `PModel.Spanned toks a b t` reads the same discipline off the tree alone (range of `t` is
+`rng toks a b`; the children are `Spanned` on sub-segments `[a', b')`, `a ≤ a' < b' ≤ b`, one after the
+other in field order; binders are identifier tokens of the segment).  `PModel.Nested t` is the byte-level
+reading: every range non-empty, children inside the parent, siblings disjoint and in source order.
+`PModel.CacheInvT toks st`: every entry of the memo table satisfies the statement being proved
+(the empty table does: `C15_span_exact_from_empty`). -/
+
+/-- `rng` with explicit indexing. -/
+def C15_rng_tokens_stmt : Prop :=
+  ∀ (toks : Array PModel.PTok) (a b : Nat) (h1 : a < b) (h2 : b ≤ toks.size),
+    PModel.rng toks a b =
+      ⟨(toks[a]'(by omega)).range.start, (toks[b - 1]'(by omega)).range.stop⟩
+theorem C15_rng_tokens : C15_rng_tokens_stmt := fun _ _ _ h1 h2 => PModel.rng_eq h1 h2
+
+/-- **Span exactness.**  Whatever the nonterminal, the start position, the fuel and the (invariant)
+memo table: a result without recorded error is the parse tree of the segment `[start, r.next)`, and
+the memo table left behind satisfies the invariant again. -/
+def C15_span_exact_stmt : Prop :=
+  ∀ (toks : Array PModel.PTok) (fuel : Nat) (nt : PModel.NT) (start : Nat) (r : PModel.PResult)
+    (st st' : PModel.PState),
+    PModel.CacheInvT toks st → PModel.parseNT toks fuel nt start st = some (r, st') →
+    PModel.collectErrors r.term = [] →
+    PModel.SegT toks nt start r.next r.term ∧ PModel.CacheInvT toks st'
+theorem C15_span_exact : C15_span_exact_stmt :=
+  fun _ _ _ _ _ _ _ hI h hce => PModel.parse_spans hI h hce
+
+/-- The parse phase of `parse` (`parse_term` at 0 from the empty table). -/
+def C15_span_exact_from_empty_stmt : Prop :=
+  (∀ toks, PModel.CacheInvT toks PModel.PState.init) ∧
+  ∀ (toks : Array PModel.PTok) (r : PModel.PResult) (st : PModel.PState),
+    PModel.runParser toks = some (r, st) → PModel.collectErrors r.term = [] →
+    PModel.SegT toks .term 0 r.next r.term
+theorem C15_span_exact_from_empty : C15_span_exact_from_empty_stmt :=
+  ⟨PModel.CacheInvT.init, fun _ _ _ h hce => PModel.runParser_spans h hce⟩
+
+/-- A parse tree of a segment is a derivation of the segment (`Seg`, the relation of C07) and obeys
+the range discipline `Spanned`: the node's range is that of its own segment, recursively. -/
+def C15_tree_spanned_stmt : Prop :=
+  ∀ (toks : Array PModel.PTok) (nt : PModel.NT) (a b : Nat) (t : PModel.Src),
+    PModel.SegT toks nt a b t →
+    PModel.Seg toks nt a b ∧ PModel.Spanned toks a b t ∧ a < b ∧ b ≤ toks.size ∧
+      t.range = PModel.rng toks a b
+theorem C15_tree_spanned : C15_tree_spanned_stmt :=
+  fun _ _ _ _ _ h => ⟨h.toSeg, h.spanned, h.spanned.bounds.1, h.spanned.bounds.2, h.range⟩
+
+/-- The root's range starts where the first token starts and ends where the last consumed token
+ends. -/
+def C15_root_range_stmt : Prop :=
+  ∀ (toks : Array PModel.PTok) (fuel : Nat) (nt : PModel.NT) (start : Nat) (r : PModel.PResult)
+    (st st' : PModel.PState),
+    PModel.CacheInvT toks st → PModel.parseNT toks fuel nt start st = some (r, st') →
+    PModel.collectErrors r.term = [] →
+    ∃ (h1 : start < toks.size) (h2 : r.next - 1 < toks.size), start < r.next ∧ r.next ≤ toks.size ∧
+      r.term.range.start = toks[start].range.start ∧
+      r.term.range.stop = toks[r.next - 1].range.stop
+theorem C15_root_range : C15_root_range_stmt :=
+  fun _ _ _ _ _ _ _ hI h hce => PModel.parse_root_range hI h hce
+
+/-- Every descendant's range lies within its parent's, is non-empty, and siblings are disjoint and
+in source order: on the level of token positions always (`Spanned`), on the level of byte offsets
+(`Nested`) as soon as the token ranges themselves are non-empty and ordered (which the tokenizer
+guarantees, `C09_ordered_disjoint`). -/
+def C15_ranges_nested_stmt : Prop :=
+  ∀ (toks : Array PModel.PTok) (fuel : Nat) (nt : PModel.NT) (start : Nat) (r : PModel.PResult)
+    (st st' : PModel.PState),
+    PModel.CacheInvT toks st → PModel.parseNT toks fuel nt start st = some (r, st') →
+    PModel.collectErrors r.term = [] →
+    PModel.Spanned toks start r.next r.term ∧ (PModel.TokensOrdered toks → PModel.Nested r.term)
+theorem C15_ranges_nested : C15_ranges_nested_stmt :=
+  fun _ _ _ _ _ _ _ hI h hce => PModel.parse_ranges_nested hI h hce
+
+/-- The memo table is transparent: what the cache-free functions `parsePure` (the same 36 bodies
+without `cache_check!`) return is what the parse phase returns.  (Used to evaluate the parser inside
+the kernel, where `Std.HashMap` does not reduce.) -/
+def C15_memo_transparent_stmt : Prop :=
+  ∀ (toks : Array PModel.PTok) (fuel : Nat) (st0 st0' : PModel.PState) (x : PModel.PResult),
+    PModel.parsePure toks fuel .term 0 st0 = some (x, st0') →
+    ∃ st, PModel.runParser toks = some (x, st)
+theorem C15_memo_transparent : C15_memo_transparent_stmt :=
+  fun _ _ _ _ _ h => PModel.runParser_eq_pure h
+
+/-! ### Non-vacuity: concrete token arrays, evaluated by the kernel -/
+
+/-- The tokens of `( f x ) + 1` (bytes: `(`0 `f`2 `x`4 `)`6 `+`8 `1`10). -/
+def C15_exToks : Array PModel.PTok := #[
+  ⟨.leftParen, ⟨0, 1⟩⟩, ⟨.identifier 1, ⟨2, 3⟩⟩, ⟨.identifier 2, ⟨4, 5⟩⟩, ⟨.rightParen, ⟨6, 7⟩⟩,
+  ⟨.plus, ⟨8, 9⟩⟩, ⟨.integerLiteral 1, ⟨10, 11⟩⟩]
+
+-- `( f x ) + 1`: no error, all 6 tokens consumed; in preorder: the sum `0..11`; its left operand, the
+-- application `f x` with `group = true` and the range of the parentheses `0..7`; `f` `2..3`; `x` `4..5`
+-- (the children keep their ranges); the literal `10..11`
+example : ∃ r st, PModel.runParser C15_exToks = some (r, st) ∧
+    (PModel.collectErrors r.term, r.next, r.term.nodes) =
+      ([], 6, [(⟨0, 11⟩, false), (⟨0, 7⟩, true), (⟨2, 3⟩, false), (⟨4, 5⟩, false),
+        (⟨10, 11⟩, false)]) :=
+  PModel.runParser_eval C15_exToks 60
+    (fun r => (PModel.collectErrors r.term, r.next, r.term.nodes)) _ (by decide +kernel)
+
+-- the token ranges of the example are non-empty and ordered, so the byte-level conclusion applies too
+example : PModel.TokensOrdered C15_exToks := PModel.tokensOrderedB_sound (by decide)
+
+example : ∃ r st, PModel.runParser C15_exToks = some (r, st) ∧ PModel.Nested r.term := by
+  obtain ⟨r, st, h, ho⟩ := PModel.runParser_eval C15_exToks 60
+    (fun r => PModel.collectErrors r.term) [] (by decide +kernel)
+  exact ⟨r, st, h, (PModel.parse_ranges_nested (PModel.CacheInvT.init _) h ho).2
+    (PModel.tokensOrderedB_sound (by decide))⟩
+
+/-- The tokens of `x : t = ( y => y ) ; a -> x` (one byte per token, one space between tokens). -/
+def C15_exToks2 : Array PModel.PTok := #[
+  ⟨.identifier 1, ⟨0, 1⟩⟩, ⟨.colon, ⟨2, 3⟩⟩, ⟨.identifier 2, ⟨4, 5⟩⟩, ⟨.equals, ⟨6, 7⟩⟩,
+  ⟨.leftParen, ⟨8, 9⟩⟩, ⟨.identifier 3, ⟨10, 11⟩⟩, ⟨.thickArrow, ⟨12, 14⟩⟩, ⟨.identifier 3, ⟨15, 16⟩⟩,
+  ⟨.rightParen, ⟨17, 18⟩⟩, ⟨.terminator .semicolon, ⟨19, 20⟩⟩, ⟨.identifier 4, ⟨21, 22⟩⟩,
+  ⟨.thinArrow, ⟨23, 25⟩⟩, ⟨.identifier 1, ⟨26, 27⟩⟩]
+
+-- the let `0..27`; annotation `t` `4..5`; the grouped lambda `8..18` with its body `y` `15..16`; the
+-- arrow type `21..27` with `a` `21..22` and `x` `26..27`.  Binders: `x` `0..1` (its identifier token),
+-- `y` `10..11` (inside the parentheses), and the anonymous binder of `a -> x`: empty, at the start of `a`
+example : ∃ r st, PModel.runParser C15_exToks2 = some (r, st) ∧
+    (PModel.collectErrors r.term, r.next, r.term.nodes, r.term.binders) =
+      ([], 13, [(⟨0, 27⟩, false), (⟨4, 5⟩, false), (⟨8, 18⟩, true), (⟨15, 16⟩, false),
+        (⟨21, 27⟩, false), (⟨21, 22⟩, false), (⟨26, 27⟩, false)],
+       [⟨0, 1⟩, ⟨10, 11⟩, ⟨21, 21⟩]) :=
+  PModel.runParser_eval C15_exToks2 80
+    (fun r => (PModel.collectErrors r.term, r.next, r.term.nodes, r.term.binders)) _
+    (by decide +kernel)
